@@ -56,9 +56,8 @@ func (fs *FS) addMount(p string, mountFS hackpadfs.FS) error {
 	fs.mountMu.Lock()
 	defer fs.mountMu.Unlock()
 
-	dir, base := path.Split(p)
-	parentFS, subPath := fs.Mount(dir) // get this mount point's parent mount, verify dir exists
-	f, err := parentFS.Open(path.Join(subPath, base))
+	parentFS, subPath := fs.Mount(path.Dir(p)) // get this mount point's parent mount, verify dir exists
+	f, err := parentFS.Open(path.Join(subPath, path.Base(p)))
 	if err != nil {
 		return err
 	}
@@ -82,6 +81,10 @@ func (fs *FS) addMount(p string, mountFS hackpadfs.FS) error {
 
 // Mount implements hackpadfs.MountFS
 func (fs *FS) Mount(path string) (mount hackpadfs.FS, subPath string) {
+	if !hackpadfs.ValidPath(path) {
+		// let the root file system reject the invalid path: a mount must not be handed a different, possibly valid, path
+		return fs.rootFS, path
+	}
 	mount, mountPath, subPath := fs.mountPoint(path)
 	if mountPath == "." {
 		return mount, path
